@@ -187,6 +187,10 @@ func runRep(scratch string, jb job, watchdog time.Duration) *childResult {
 }
 
 func main() {
+	if jp := os.Getenv(envStalled); jp != "" {
+		runStalledChild(jp)
+		return
+	}
 	if jp := os.Getenv(envBurst); jp != "" {
 		runBurstChild(jp)
 		return
@@ -217,6 +221,7 @@ func main() {
 		"library-defaults stage: passphrase operations at the default work factor 18 (256 MiB each) run in a child built without -race; a hang is reported only if nothing completed for 60 s and every unfinished worker is parked in filippo.io/age code (goroutine dump), otherwise the run is inconclusive",
 		"caller variations rotate per operation (Close twice, Close plus deferred Close, Write after Close, zero-length Writes/Reads, an extra writer abandoned without Close, Reads past EOF); each encrypting round starts with 4 lone encryptions closed twice, made after the round's GOMAXPROCS is set; two goroutines never call Close on one stream concurrently",
 		"heterogeneous headers: pools of reference-built files with the shared identity's stanza at position first/middle/last of 1, 2, 3, 8, 17, 40 stanzas (foreign stanzas: unknown types, X25519 and ssh-ed25519 for other keys); operations draw several in a row; tight-loop bursts (8 goroutines, one fresh shared identity per kind, unknown-type fillers only, no perturbed I/O) run at the end of each race child and, much longer, in a process built without -race",
+		"stalled-peer stage (child process): one operation is parked in the caller's Write/Read at header / nonce / chunk / Close positions, or in a pipe nobody reads yet; 8 peers on the same shared values must complete meanwhile; 'blocked' is decided logically (not complete within a 12 s step watchdog while parked, complete once released); a control round separates starvation (inconclusive)",
 		"shared lists: three []age.Identity orders of the four identities and two []age.Recipient lists, spread with ... into the calls; checked unchanged after every round that used them, plus a sequential pass",
 		"EncryptedSSHIdentity (caches the decrypted key) and plugin values are outside the property's list of types and are not exercised",
 		"decryption inputs and the check of encryption outputs come from the reference implementation (refage), validated against the CCTV vectors at start-up",
@@ -243,6 +248,12 @@ func main() {
 	// alongside the race children
 	dres := &defaultsResult{}
 	var xburst, sburst *burstResult
+	var stres *stalledResult
+	wg.Add(1)
+	go func() {
+		defer wg.Done()
+		stres = runStalled(scratch, r)
+	}()
 	plainBin, buildS, buildErr := buildPlain(scratch, r)
 	if buildErr == "" {
 		xburst = runBurstProcess(plainBin, scratch, r, "x")
@@ -272,6 +283,34 @@ func main() {
 		}(k)
 	}
 	wg.Wait()
+
+	// ---- the stalled-peer stage (independence of progress) ------------------------
+	results = append(results, &childResult{rep: -1, done: true, races: stres.races})
+	for _, s := range stres.inconcl {
+		r.Inconclusive("%s", s)
+	}
+	stTab := map[string]string{}
+	stParked := 0
+	for _, so := range stres.outs {
+		r.Eval(so.Peers + 1)
+		r.Distinct("stalled/" + so.Name)
+		stTab[so.Name] = fmt.Sprintf("%s (parked=%v, peers completed while parked %d/%d)", so.Status, so.Parked, so.PeersDone, so.Peers)
+		if so.Parked {
+			stParked++
+		}
+		switch so.Status {
+		case "blocked", "failed":
+			r.Violate(so.Key, so.What, map[string]any{"stage": "stalled peer", "scenario": so.Name, "position": so.Position, "kind": so.Kind, "peers_completed_while_parked": so.PeersDone, "peers": so.Peers})
+		case "inconclusive":
+			r.Inconclusive("stalled-peer scenario %s: %s", so.Name, so.What)
+		}
+	}
+	if len(stres.outs) < 19 && len(stres.inconcl) == 0 {
+		r.Inconclusive("stalled-peer stage: only %d of 19 scenarios ran", len(stres.outs))
+	}
+	r.Count("stalled_peer_scenarios", int64(len(stres.outs)))
+	r.Count("stalled_peer_scenarios_with_an_operation_seen_parked", int64(stParked))
+	r.Set("stalled_peer_stage", map[string]any{"wall_s": stres.wallS, "scenarios": stTab})
 
 	// ---- aggregate ---------------------------------------------------------
 	type objAgg struct {
